@@ -342,3 +342,20 @@ func init() {
 		return ""
 	}
 }
+
+// maps.Clone ends in the runtime-linked maps.clone(any) any: a shallow copy.
+func init() {
+	externals["maps.clone"] = func(fr *frame, args []value) value {
+		x, _ := args[0].(iface)
+		m, ok := x.v.(*hashmap)
+		if !ok || m == nil {
+			return x
+		}
+		m.touch(false)
+		out := &hashmap{ex: m.ex, keyType: m.keyType}
+		for _, en := range m.ents {
+			out.ents = append(out.ents, &entry{en.key, en.value})
+		}
+		return iface{t: x.t, v: out}
+	}
+}
